@@ -19,6 +19,14 @@ pub struct Gen {
 impl Gen {
     pub fn tags(&self) -> Vec<String> {
         let mut t = match &self.ft {
+            Some(ft) if ft.burst.is_some() => {
+                let (n, from_task) = ft.burst.unwrap();
+                let mut t = vec![format!("fr_burst_{n}")];
+                if from_task {
+                    t.push("fr_requests_issued_by_a_running_task".into());
+                }
+                t
+            }
             Some(ft) if !ft.local.is_empty() => {
                 let mut t = vec![format!("fl_requests_{}", ft.local.len())];
                 let l = &ft.local;
@@ -1323,6 +1331,8 @@ pub struct FtSpec {
     /// FL programs: requests `(closure j, time)` for two closure *values* bound inside a function; the same value may be
     /// requested several times, also for one sample (each request is one task)
     pub local: Vec<(usize, f64)>,
+    /// FR programs: (n, issued by a task at sample 1 rather than by global code)
+    pub burst: Option<(u64, bool)>,
 }
 const FT_TIMES: [f64; 4] = [1.0, 2.0, 3.0, 2.5];
 const FT_PERIODS: [f64; 4] = [0.0, 1.0, 2.0, 3.0];
@@ -1345,7 +1355,7 @@ pub fn ft_decode(idx: u64, k: u32) -> Option<Gen> {
             tasks.push(FtTask { at: None, chain_delay: 0.0, period: 0.0, from_dsp: Some(FT_TIMES[(*d - 20) as usize]) });
         }
     }
-    let spec = FtSpec { tasks, local: vec![] };
+    let spec = FtSpec { tasks, local: vec![], burst: None };
     let ops = spec.tasks.iter().enumerate().map(|(i, t)| format!("task{i}: {t:?}")).collect();
     Some(Gen { prog: Prog::default(), family: "FT", inputs: 0, ops, ft: Some(spec), text: None })
 }
@@ -1359,7 +1369,7 @@ pub fn fl_decode(idx: u64, k: u32) -> Option<Gen> {
     let digits = seq_decode(idx, FL_RADIX, k);
     let local: Vec<(usize, f64)> = digits.iter().map(|d| ((*d / 4) as usize, FT_TIMES[(*d % 4) as usize])).collect();
     let ops = local.iter().map(|(j, t)| format!("tick{j}@{}", fmt_num(*t))).collect();
-    Some(Gen { prog: Prog::default(), family: "FL", inputs: 0, ops, ft: Some(FtSpec { tasks: vec![], local }), text: None })
+    Some(Gen { prog: Prog::default(), family: "FL", inputs: 0, ops, ft: Some(FtSpec { tasks: vec![], local, burst: None }), text: None })
 }
 impl FtSpec {
     fn local_source(&self) -> String {
@@ -1433,6 +1443,17 @@ impl FtSpec {
     /// reference: a sorted multiset of (time, task); a task scheduled for time w runs exactly once,
     /// at the start of sample floor(w), before dsp of that sample
     pub fn reference(&self, nsamples: usize) -> Vec<Vec<f64>> {
+        if let Some((n, from_task)) = self.burst {
+            // one task per sample: samples 1..=n (global code, now = 0) or 2..=n+1 (task running at sample 1)
+            let first = if from_task { 2 } else { 1 };
+            return (0..nsamples as u64)
+                .map(|s| {
+                    let done = if s < first { 0 } else { (s - first + 1).min(n) };
+                    let last = if done == 0 { -1.0 } else { (first + done - 1) as f64 };
+                    vec![done as f64, last]
+                })
+                .collect();
+        }
         if !self.local.is_empty() {
             return self.local_reference(nsamples);
         }
@@ -1643,6 +1664,57 @@ pub fn fw_decode(idx: u64) -> Option<Gen> {
         format!("helper invoked {calls}x at global initialisation"),
     ];
     Some(Gen { prog: Prog::default(), family: "FW", inputs: 1, ops, ft: None, text: Some(src) })
+}
+
+// ================================================================== FM: match on number literals
+
+pub fn fm_count() -> u64 {
+    4 * 6 * 2
+}
+/// FM: `match` on number literals with a wildcard arm. The scrutinee walks over an integer ramp that starts above,
+/// inside or below the literals (and, in the second form, steps by one half), so that values below the smallest
+/// literal, between literals, on them and above the largest all occur. Literal sets: contiguous from 0, contiguous
+/// from 1, with a gap, a single literal; also a two-component tuple match.
+pub fn fm_decode(idx: u64) -> Option<Gen> {
+    let (set, start, half) = (idx % 4, (idx / 4) % 6, (idx / 24) % 2);
+    let lits: &[i64] = match set {
+        0 => &[0, 1, 2],
+        1 => &[1, 2, 3],
+        2 => &[0, 2, 5],
+        _ => &[3],
+    };
+    let arms: String = lits.iter().enumerate().map(|(i, l)| format!("    {l} => {}.0,\n", (i + 1) * 100)).collect();
+    let start_v = [6.0, 3.0, 1.0, 0.0, -2.0, -6.0][start as usize];
+    let step = if half == 0 { "1.0" } else { "0.5" };
+    // the scrutinee falls from start_v by `step` per sample
+    let src = format!(
+        "fn ramp() {{\n  self + {step}\n}}\nfn pick(n) {{\n  match n {{\n{arms}    _ => 900.0\n  }}\n}}\nfn pick2(a: float, b: float) {{\n  match (a, b) {{\n    (1, 1) => 10.0,\n    (1, 2) => 20.0,\n    (2, 1) => 30.0,\n    _ => 90.0\n  }}\n}}\nfn dsp(x) {{\n  let n = {} - ramp()\n  (pick(n), pick2(n, 1.0), pick2(2.0, n))\n}}\n",
+        fmt_num(start_v + if half == 0 { 1.0 } else { 0.5 })
+    );
+    let ops = vec![format!("literals {lits:?}"), format!("scrutinee starts at {start_v} and falls by {step} per sample")];
+    Some(Gen { prog: Prog::default(), family: "FM", inputs: 1, ops, ft: None, text: Some(src) })
+}
+
+// ================================================================== FR: bursts of scheduling requests
+
+const FR_SIZES: [u64; 7] = [1, 2, 60, 127, 128, 129, 300];
+pub fn fr_count() -> u64 {
+    FR_SIZES.len() as u64 * 2
+}
+/// FR: N requests `bump@(now + k)`, k = N..1, issued in one go by a recursive function - from global code before the
+/// first sample, or by a task at sample 1 - so that one task is due at each of the following N samples.
+pub fn fr_decode(idx: u64) -> Option<Gen> {
+    let n = FR_SIZES[(idx % FR_SIZES.len() as u64) as usize];
+    let from_task = idx / FR_SIZES.len() as u64 == 1;
+    let mut src = String::from("let c0 = 0.0\nlet t0 = 0.0 - 1.0\nfn bump() {\n  c0 = c0 + 1.0\n  t0 = now\n}\nfn burst(n) {\n  if (n > 0.5) {\n    bump@(now + n)\n    burst(n - 1.0)\n  } else {\n    0.0\n  }\n}\n");
+    if from_task {
+        src.push_str(&format!("fn starter() {{\n  let r = burst({n}.0)\n  r\n}}\nstarter@1.0\n"));
+    } else {
+        src.push_str(&format!("let started = burst({n}.0)\n"));
+    }
+    src.push_str("fn dsp() {\n  (c0, t0)\n}\n");
+    let spec = FtSpec { tasks: vec![], local: vec![], burst: Some((n, from_task)) };
+    Some(Gen { prog: Prog::default(), family: "FR", inputs: 0, ops: vec![format!("{n} requests in one go from {}", if from_task { "a task at sample 1" } else { "global code" })], ft: Some(spec), text: Some(src) })
 }
 
 // ================================================================== structural features (tags)
